@@ -107,6 +107,128 @@ pub fn check_history(ctx: &mut Ctx, c: &SignHistory) -> Res {
     Ok(())
 }
 
+/// several signer and verifier objects alive at once on one thread, fed in an interleaved order; objects may be dropped
+/// with an unfinished message. Each object's result depends on ITS message alone.
+#[derive(Debug, Clone, Serialize, Deserialize)]
+pub enum MultiOp {
+    /// feed a chunk to signer slot k (created on first use from seed k)
+    Update(u8, Hex),
+    /// finish the message of signer slot k
+    Sign(u8),
+    /// drop signer slot k (with whatever it has buffered); the next use creates a fresh one
+    Drop(u8),
+    /// feed a chunk to the verifier of slot k (created on first use with slot k's public key)
+    VUpdate(u8, Hex),
+    /// finish verifier slot k against the genuine signature of what it was fed (must accept), then drop it
+    VFinish(u8),
+}
+
+pub fn check_multi(ctx: &mut Ctx, ops: &Vec<MultiOp>) -> Res {
+    const SLOTS: usize = 3;
+    let seeds: Vec<[u8; 32]> = (0..SLOTS).map(|k| <[u8; 32]>::try_from(&crate::refcrypto::sha512(&[&b"multi-signer"[..], &[k as u8][..]])[..32]).unwrap()).collect();
+    let keys: Vec<RefKey> = seeds.iter().map(|s| RefKey::from_seed(s)).collect();
+    let mut signers: Vec<Option<MsgSigner>> = (0..SLOTS).map(|_| None).collect();
+    let mut sbuf: Vec<Vec<u8>> = vec![vec![]; SLOTS];
+    let mut verifiers: Vec<Option<MsgVerifier>> = (0..SLOTS).map(|_| None).collect();
+    let mut vbuf: Vec<Vec<u8>> = vec![vec![]; SLOTS];
+    let mut interleaved = false;
+    let mut last_fed: Option<usize> = None;
+    for (n, op) in ops.iter().enumerate() {
+        ctx.eval();
+        match op {
+            MultiOp::Update(k, ch) => {
+                let k = *k as usize % SLOTS;
+                if signers[k].is_none() {
+                    signers[k] = Some(MsgSigner::from_seed(&seeds[k]));
+                    sbuf[k].clear();
+                }
+                if no_unwind(|| signers[k].as_mut().unwrap().update(&ch.0)).is_err() {
+                    return ctx.fail("multi|update-panic", format!("op #{}", n));
+                }
+                sbuf[k].extend_from_slice(&ch.0);
+                if last_fed.map(|l| l != k).unwrap_or(false) && sbuf.iter().filter(|b| !b.is_empty()).count() >= 2 {
+                    interleaved = true;
+                }
+                last_fed = Some(k);
+            }
+            MultiOp::Sign(k) => {
+                let k = *k as usize % SLOTS;
+                if signers[k].is_none() {
+                    signers[k] = Some(MsgSigner::from_seed(&seeds[k]));
+                    sbuf[k].clear();
+                }
+                let sig = match no_unwind(|| signers[k].as_mut().unwrap().sign()) {
+                    Ok(s) => s,
+                    Err(p) => return ctx.fail("multi|sign-panic", p),
+                };
+                let want = keys[k].sign(&sbuf[k]);
+                if sig != want {
+                    return ctx.fail(
+                        "multi|signature-depends-on-other-objects",
+                        format!("op #{}: signer {} was fed {} bytes of its own while other signers/verifiers were in use; its signature {} is not the Ed25519 signature of its own message ({})", n, k, sbuf[k].len(), hex(&sig), hex(&want)),
+                    );
+                }
+                sbuf[k].clear();
+            }
+            MultiOp::Drop(k) => {
+                let k = *k as usize % SLOTS;
+                signers[k] = None;
+                sbuf[k].clear();
+            }
+            MultiOp::VUpdate(k, ch) => {
+                let k = *k as usize % SLOTS;
+                if verifiers[k].is_none() {
+                    verifiers[k] = Some(MsgVerifier::new(&keys[k].public()));
+                    vbuf[k].clear();
+                }
+                verifiers[k].as_mut().unwrap().update(&ch.0);
+                vbuf[k].extend_from_slice(&ch.0);
+            }
+            MultiOp::VFinish(k) => {
+                let k = *k as usize % SLOTS;
+                if let Some(v) = verifiers[k].take() {
+                    let sig = keys[k].sign(&vbuf[k]);
+                    let ok = no_unwind(|| v.verify(&sig)).unwrap_or(false);
+                    if !ok {
+                        return ctx.fail("multi|verifier-depends-on-other-objects", format!("op #{}: verifier {} rejects the genuine signature of the {} bytes it was fed", n, k, vbuf[k].len()));
+                    }
+                    // and it must reject the signature of a message of another slot's content, if that differs
+                    let other = (k + 1) % SLOTS;
+                    if sbuf[other] != vbuf[k] {
+                        let wrong = keys[k].sign(&sbuf[other]);
+                        let v2 = {
+                            let mut v2 = MsgVerifier::new(&keys[k].public());
+                            v2.update(&vbuf[k]);
+                            v2
+                        };
+                        if no_unwind(|| v2.verify(&wrong)).unwrap_or(false) {
+                            return ctx.fail("multi|verifier-accepts-other-message", format!("op #{}", n));
+                        }
+                    }
+                    vbuf[k].clear();
+                }
+            }
+        }
+    }
+    ctx.class(&format!("sign:multi:{}", if interleaved { "interleaved" } else { "sequential" }));
+    if interleaved {
+        ctx.nontrivial(&serde_json::to_string(ops).unwrap_or_default());
+    }
+    Ok(())
+}
+
+fn multi_ops() -> impl Strategy<Value = Vec<MultiOp>> {
+    let chunk = prop_oneof![1 => Just(Hex(vec![])), 4 => bytes(1usize..=40), 1 => bytes(900usize..=1200)];
+    let op = prop_oneof![
+        6 => (0u8..3, chunk.clone()).prop_map(|(k, c)| MultiOp::Update(k, c)),
+        3 => (0u8..3).prop_map(MultiOp::Sign),
+        1 => (0u8..3).prop_map(MultiOp::Drop),
+        2 => (0u8..3, chunk).prop_map(|(k, c)| MultiOp::VUpdate(k, c)),
+        1 => (0u8..3).prop_map(MultiOp::VFinish),
+    ];
+    proptest::collection::vec(op, 2..=40)
+}
+
 #[derive(Debug, Clone, Serialize, Deserialize)]
 pub enum Corrupt {
     None,
@@ -263,6 +385,10 @@ pub fn run(ctx: &mut Ctx) -> Vec<Violation> {
         ctx.sample("history", 2, c);
         check_history(ctx, c)
     }));
+    out.extend(run_prop(ctx, "multi-object", t.pick(20_000, 400_000), 1000, multi_ops(), |ctx, ops| {
+        ctx.sample("multi-object", 1, ops);
+        check_multi(ctx, ops)
+    }));
     out.extend(run_prop(ctx, "triple-all-bits", t.pick(480, 8_000), 200, (seed32(), chunks()).prop_map(|(seed, chunks)| Triple { seed, chunks }), |ctx, c| {
         ctx.sample("triple", 1, c);
         check_triple_all_bits(ctx, c)
@@ -283,6 +409,7 @@ pub fn run(ctx: &mut Ctx) -> Vec<Violation> {
 pub fn replay(ctx: &mut Ctx, sub: &str, case: &Value) -> Res {
     match sub {
         "history" => replay_case::<SignHistory, _>(ctx, case, |ctx, c| check_history(ctx, c)),
+        "multi-object" => replay_case::<Vec<MultiOp>, _>(ctx, case, |ctx, c| check_multi(ctx, c)),
         "triple-all-bits" => replay_case::<Triple, _>(ctx, case, |ctx, c| check_triple_all_bits(ctx, c)),
         "verify" => replay_case::<VerifyCase, _>(ctx, case, |ctx, c| check_verify(ctx, c)),
         _ => Err(viol("bad-replay-file", format!("unknown sub {}", sub))),
